@@ -1078,7 +1078,7 @@ def platform_glue_case(rng, cycles, regular_comb):
 # name, every parameter with its value, every port with its connection, order inputs/outputs/inouts)
 # ----------------------------------------------------------------------------------------------------------
 
-def instance_text_check(rng, n_inst):
+def instance_text_check(rng, n_inst, lean=None):
     """Returns (instances checked, first problem or None).  Port connections are read by the expression reader
     and evaluated against the real Evaluator on random valuations; parameters are compared by value."""
     import re
@@ -1127,11 +1127,69 @@ def instance_text_check(rng, n_inst):
         text = cap.text
         body = text[text.index("// Specialized Logic"):text.index("endmodule")]
         prob = _check_instance_text(body, cap, inst, "FOO_%d" % k, params, ins, onames, ionames, directive, sigs + outs + [pad], rng)
+        if prob is None and lean is not None:
+            prob = _lean_instance(lean, body, cap, inst, "FOO_%d" % k, sigs + outs + [pad])
         checked += 1
         if prob is not None:
             prob.update(oracle="instance-text", instance_text=body[body.index("FOO"):][:1500] if "FOO" in body else body[:600])
             return checked, prob
     return checked, None
+
+
+def _lean_instance(lean, body, cap, inst, of, allsigs):
+    """Lean `printInstance` (LitexModel/Fhdl/Instance.lean) on the Instance's items == the parameter / connection
+    lists parsed from the real text, name by name, IN ORDER, node for node."""
+    import re
+    from migen import Instance
+    from migen.fhdl.structure import Constant
+    hx = lambda t: "x" + t.encode().hex()
+    ns = cap.ns
+    ids = SigIds()
+    for s_ in allsigs:
+        ids.get(s_)
+    names = {ns.get_name(s_): (i, s_.nbits, s_.signed) for i, s_ in enumerate(allsigs)}
+    iname = ns.get_name(inst)
+    code = "\n".join(l for l in body.splitlines() if not l.strip().startswith("//"))
+    m = re.search(r"\b%s\s+(#\((?P<par>.*?)\n\)\s*)?%s\s*\((?P<ports>.*)\)\s*(/\* synthesis .*? \*/)?;" % (re.escape(of), re.escape(iname)), code, re.S)
+
+    def conns(txt):
+        out = []
+        for line in (txt or "").split("\n"):
+            line = line.strip().rstrip(",")
+            if line:
+                mm = re.match(r"\.(\w+)\s*\((.*)\)$", line, re.S)
+                out.append((mm.group(1), mm.group(2)))
+        return out
+    ps, qs = [], []
+    for it in inst.items:
+        if isinstance(it, Instance.Parameter):
+            v = it.value
+            if isinstance(v, Constant):
+                ps += [it.name, "c", str(v.value), str(v.nbits), "1" if v.signed else "0"]
+            elif isinstance(v, str) and not isinstance(v, Instance.PreformattedParam):
+                ps += [it.name, "s", hx(v)]
+            else:
+                ps += [it.name, "v", hx(str(v))]
+        elif isinstance(it, (Instance.Input, Instance.Output, Instance.InOut)):
+            d = "i" if isinstance(it, Instance.Input) else ("o" if isinstance(it, Instance.Output) else "x")
+            qs += [d, it.name] + ser_expr(it.expr, ids)
+    npar = sum(1 for it in inst.items if isinstance(it, Instance.Parameter))
+    nport = sum(1 for it in inst.items if isinstance(it, (Instance.Input, Instance.Output, Instance.InOut)))
+    tps, tqs = [], []
+    tp, tq = conns(m.group("par")), conns(m.group("ports"))
+    for n_, txt in tp:
+        try:
+            tps += [n_, "e"] + parse_vexpr(txt, {})
+        except (L.ParseError, IndexError):
+            tps += [n_, "r", hx(txt)]
+    for n_, txt in tq:
+        tqs += [n_] + parse_vexpr(txt, names)
+    line = "inst %d %s ; %d %s ; %d %s ; %d %s" % (npar, " ".join(ps), nport, " ".join(qs), len(tp), " ".join(tps),
+                                                  len(tq), " ".join(tqs))
+    ans = lean.call_batch([line])[0]
+    if ans.strip() != "ok":
+        return {"what": "Lean printInstance differs from the parameter/connection list of the real text: %s" % ans[:200]}
+    return None
 
 
 def _check_instance_text(body, cap, inst, of, params, ins, outs, inouts, directive, allsigs, rng):
@@ -1274,6 +1332,118 @@ def prbs_pause_probe():
             "selected): the simulator must hold it, as the emitted Verilog does",
             fails, {"errors_when_pause_rises": {"simulator": at_pause[0], "verilog": at_pause[1]},
                     "errors_after_32_paused_cycles": {"simulator": end[0], "verilog": end[1]}})
+
+
+def mem_lean_tie(ctx, cycles, dis):
+    """Lean memory model (LitexModel/Fhdl/Memory.lean) against the real code, one port / one clock:
+       memEdgeF/memReadF == the real simulator (MemoryToArray) on the design, EVERY edge (also with partial byte
+       enables and with reset asserted: the model is faithful outside the theorems' hypotheses too);
+       memEdgeV/memReadV == the independent reading of the text memory.py emitted, every edge;
+       and where `memInOk` held on every edge so far the two Lean sides must agree (mem_run_equiv_partial)."""
+    from migen.fhdl.specials import READ_FIRST, WRITE_FIRST, NO_CHANGE
+    from c01lib import Netlist
+    MemDut = dict(memory_builders("quick"))["Memory/no-change/16x4/gran8/re"]().__class__
+    M = {"wf": WRITE_FIRST, "rf": READ_FIRST, "nc": NO_CHANGE, "as": WRITE_FIRST}
+    #        width depth mode  gran re     init                     full_we
+    grid = [(8, 8, "wf", 0, False, [1, 2, 3], False), (16, 4, "wf", 8, True, None, False),
+            (8, 6, "rf", 0, False, [1, 2, 3, 4, 5, 6], False), (12, 5, "rf", 4, True, [0xfff], False),
+            (8, 8, "nc", 0, False, [9], False), (16, 3, "nc", 8, True, None, False), (33, 7, "nc", 11, False, [1 << 32], True),
+            (10, 4, "as", 0, False, [0x3ff, 5], False), (12, 12, "as", 4, False, None, False),
+            (72, 3, "wf", 8, False, [(0xa5 << 64) | 0x0123456789abcdef, 7], False), (4, 3, "wf", 2, True, None, False),
+            (6, 5, "wf", 0, True, [9, 8, 7, 6, 5], False)]
+    rng = ctx.rng
+    tot = dict(cases=0, edges=0, inok_edges=0)
+    for (w, depth, mode, gran, has_re, init, full_we), clean in [(g_, c_) for g_ in grid for c_ in (True, False)]:
+        # clean run: inside the theorems' hypotheses on every edge (no reset, NO_CHANGE enables all-or-nothing)
+        name = "mem %dx%d %s g%d re%d%s" % (w, depth, mode, gran, has_re, " clean" if clean else "")
+
+        def mk():
+            return MemDut(w, depth, M[mode], gran, has_re, mode == "as", init, full_we=full_we, clamp=True)
+        try:
+            dA, dB = mk(), mk()
+            fA, iosA, cdsA = L.prepare(dA, allow_memories=True)
+            fB, iosB, cdsB = L.prepare(dB, allow_memories=True)
+            cap = L.convert_capture(fB, iosB)
+            sigs = L.module_signals(cap)
+            ids = SigIds()
+            for s_ in sigs:
+                ids.get(s_)
+            name_ids = {cap.ns.get_name(s_): ids.get(s_) for s_ in sigs}
+            mt = L.parse_module(cap.text, name_ids, allow_memories=True)
+            pv = L.PyVSim(mt, mt.name_ids, cap.result.data_files)
+            nl = Netlist(fA, clocks=tuple(cdsA))
+        except Exception as ex:
+            dis.append(Dis("mem-lean-exception", case=name, error=repr(ex)[:300]))
+            continue
+        clkB = [cd.clk for cd in cap.f.clock_domains]
+        rstA = [cd.rst for cd in fA.clock_domains if cd.rst is not None][0]
+        rstB = [cd.rst for cd in cap.f.clock_domains if cd.rst is not None][0]
+        nwe = 1 if (gran == 0 or gran >= w) else w // gran
+
+        def drive(d, pvside, nm, v):
+            sg = getattr(d, nm)
+            if pvside:
+                pv.state[ids.get(sg)] = v & ((1 << sg.nbits) - 1)
+            else:
+                nl.set(sg, v)
+        lines, reals, texts = [], [], []
+        for t in range(cycles):
+            adr = rng.randrange(1 << len(dA.adr))
+            dw = rng.randrange(1 << w)
+            we = rng.choice([0, 1]) if full_we else rng.choice([0, (1 << nwe) - 1, rng.randrange(1 << nwe)])
+            if clean and mode == "nc" and not full_we:
+                we = rng.choice([0, (1 << nwe) - 1])
+            re = rng.randrange(2)
+            rst = 1 if (not clean and t > 5 and rng.random() < 0.04) else 0
+            for pvside, d in ((False, dA), (True, dB)):
+                drive(d, pvside, "adr", adr)
+                drive(d, pvside, "dat_w", dw)
+                drive(d, pvside, "we1" if full_we else "we", we)
+                if has_re and mode != "as":
+                    drive(d, pvside, "re", re)
+            nl.set(rstA, rst)
+            pv.state[ids.get(rstB)] = rst
+            nl.settle()
+            pv.settle()
+            nl.tick(tuple(cdsA))
+            pv.tick({ids.get(c) for c in clkB})
+            reals.append(nl.getu(dA.dat_r))
+            texts.append(pv.state[ids.get(dB.dat_r)])
+            we_bits = ((1 << nwe) - 1 if we else 0) if full_we else we
+            lines.append("%d %d %d %d %d" % (min(adr, depth - 1), dw, we_bits, re, rst))
+        g_eff = 0 if gran >= w else gran
+        ans = ctx.lean.call_batch(["mem %d %d %s %d %d ; %s ; %s" % (
+            w, g_eff, mode, 1 if (has_re and mode != "as") else 0, depth, " ".join(map(str, init or [])), " ; ".join(lines))])[0]
+        if ans.startswith("bad"):
+            dis.append(Dis("driver", case=name, answer=ans[:100]))
+            continue
+        parts = [p_.split() for p_ in ans.split(";")]
+        if parts[0] != ["1"]:
+            dis.append(Dis("mem-lean-cfg", case=name, what="memCfgOk fails on a configuration of the grid"))
+        all_ok = True
+        tot["cases"] += 1
+        for t, (p_, rv, tv) in enumerate(zip(parts[1:], reals, texts)):
+            fF, fV, inok, steq = int(p_[0]), int(p_[1]), p_[2] == "1", p_[3] == "1"
+            tot["edges"] += 1
+            if fF != rv:
+                dis.append(Dis("memEdgeF", case=name, edge=t, inputs=lines[max(0, t - 3):t + 1], lean=fF, real=int(rv),
+                               what="Lean memEdgeF/memReadF differs from the real simulator (MemoryToArray)"))
+                break
+            if fV != tv:
+                dis.append(Dis("memEdgeV", case=name, edge=t, inputs=lines[max(0, t - 3):t + 1], lean=fV, text=int(tv),
+                               what="Lean memEdgeV/memReadV differs from the independent reading of the memory.py text"))
+                break
+            all_ok = all_ok and inok
+            if all_ok:
+                tot["inok_edges"] += 1
+                if not steq or fF != fV:
+                    dis.append(Dis("theorem-contradicted", case=name, edge=t,
+                                   what="memInOk held on every edge but memEdgeF and memEdgeV states/outputs differ"))
+                    break
+    ctx.cov.add_cases("Lean memory port model: memEdgeF vs real simulator, memEdgeV vs text reader, every edge (%d "
+                      "configurations: modes x granularity x re x init x non-power-of-two depth x 33/72-bit words)"
+                      % tot["cases"], tot["edges"], tot["inok_edges"], exhaustive=False)
+    ctx.log("Lean memory tie: %s" % tot)
 
 
 def l3_memories(ctx, cycles, dis):
@@ -1586,6 +1756,8 @@ def correspond(ctx):
     if len(dis) <= 10:
         l3_memories(ctx, 300 if quick else 3000, dis)
     if len(dis) <= 10:
+        mem_lean_tie(ctx, 120 if quick else 1500, dis)
+    if len(dis) <= 10:
         run_simulation_tie(ctx, 14 if quick else 140, 10 if quick else 100, 50 if quick else 120, dis)
     # independent golden reading (also the failing-input oracle): must accept the unchanged tree
     t0 = time.time()
@@ -1594,7 +1766,7 @@ def correspond(ctx):
     ctx.cov.add_cases("independent golden reading (python) of the real text vs real Evaluator, safe domain",
                       n1 + n2, n1 + n2, exhaustive=False)
     ctx.log("golden reading: %d expression cases, %d module cycles, %.1fs" % (n1, n2, time.time() - t0))
-    n3, bad3 = instance_text_check(ctx.rng, 60 if quick else 600)
+    n3, bad3 = instance_text_check(ctx.rng, 60 if quick else 600, ctx.lean)
     ctx.cov.add_cases("Instance text (instance.py) vs the Instance items: names, order, parameter values, port connections "
                       "evaluated against the real Evaluator", n3, n3, exhaustive=False)
     bad4 = None
